@@ -11,6 +11,7 @@ import Bubus.Proofs.Fifo
 import Bubus.Proofs.PathInv
 import Bubus.Proofs.NoSkip
 import Bubus.Proofs.RunLoop
+import Bubus.Proofs.Expect
 namespace Bubus.Examples
 open Bubus
 
@@ -106,5 +107,17 @@ example : ((run {} cancelledRun).map fun w => ((w.bus 0).rl, (w.bus 0).queue, (w
 
 example : ((run {} cancelledRun).bind fun w => step w (.peBegin (.rl 0) 0 0)).isSome = false := by decide
 example : ((run {} cancelledRun).bind fun w => step w (.rlCreate 0)).isSome = true := by decide
+
+/-- non-vacuity of the C18 subscription invariant: a reachable state with a pending `expect()` call and its temporary
+    handler on the registry; after the call has timed out (`expectTimeout`, then `expectEnd` with no match at the deadline)
+    the registry is empty again and the caller idle -/
+def expectRun : List Label :=
+  [.newBus 0 false (some 50) false, .on 0 1 0 .async, .expectBegin 0 0 1 7 0 (some 5)]
+
+example : ((run {} expectRun).map fun w => ((w.bus 0).handlers.map (·.kind), w.waiter 0)) =
+    some ([.async, .expect 0 0], .expecting 0 1 7 (some 5) none false) := by decide
+
+example : ((run {} (expectRun ++ [.tick 5, .expectTimeout 0, .expectEnd 0 none])).map fun w =>
+      ((w.bus 0).handlers.map (·.kind), w.waiter 0)) = some ([.async], .idle) := by decide
 
 end Bubus.Examples
